@@ -6,6 +6,7 @@ require (
 	github.com/anishathalye/porcupine v1.3.0
 	github.com/kelindar/bitmap v1.4.1
 	github.com/kelindar/column v0.0.0
+	github.com/zeebo/xxh3 v1.0.2
 )
 
 require (
@@ -16,7 +17,6 @@ require (
 	github.com/klauspost/compress v1.16.6 // indirect
 	github.com/klauspost/cpuid/v2 v2.2.5 // indirect
 	github.com/tidwall/btree v1.6.0 // indirect
-	github.com/zeebo/xxh3 v1.0.2 // indirect
 )
 
 replace github.com/kelindar/column => /repo
